@@ -12,7 +12,7 @@ import vlib
 
 LEVEL_TEXT = ('Lean 4 theorems: Noll j -> (n, m) is valid (|m| <= n, n-|m| even, even j <-> cosine/+, odd j <-> sine/-) and a bijection '
               'onto the valid (n, m) (explicit inverse, both round trips, all j >= 1); the literal list-and-negative-index code of '
-              'zernike_index equals the closed form for every j >= 1 (given the row n; the float sqrt/ceil row search is compared for every j <= 861); R_n^m(1) = 1 for all n <= 40 and the radial '
+              'zernike_index equals the closed form for every j >= 1 (and the row search ceil((-1+sqrt(1+8j))/2)-1 is the Noll row in exact real arithmetic; its float evaluation is compared for every j <= 861); R_n^m(1) = 1 for all n <= 40 and the radial '
               'parts are orthogonal with norm 1/(2(n+1)) for all n, n\' <= 20 (exact rational tables, decide +kernel); Noll\'s constants '
               'sqrt(n+1), sqrt(2) give unit mean square given the angular integrals; the default origin is the mask centroid (first '
               'moments vanish) for any parity/position; rho = 1 at the farthest masked sample and <= 1 on the mask; values vanish '
